@@ -1,7 +1,161 @@
-(* C09 -- property theorems (see coq/C09/*.v for models and proofs) *)
+(* C09 -- directive scope, inclusion, affixes, namespaces and aliases follow the
+   Standards.  Property theorems only; models in C09/Scope.v, Names.v, Alias.v,
+   proofs in C09/*Proofs.v and C09/Main.v; code_params is regenerated from
+   /repo/src by translate/tr_scope.py on every run. *)
 From Coq Require Import List NArith ZArith Bool.
-From GD Require Import C09.Names C09.Scope C09.Alias Gen.ScopeParams.
+From GD Require Import C09.Names C09.NamesProofs C09.Scope C09.Alias C09.AliasProofs C09.ScopeProofs C09.Main
+  Gen.ScopeParams.
 Import ListNotations.
+Open Scope N_scope.
 
+(* the translator recognised every decision point it looks for *)
 Theorem translator_read_everything : translator_problems = 0%nat.
 Proof. reflexivity. Qed.
+
+(* every version gate, the recursion limit, the /VERSION leak test, the
+   inheritance of encoding, byte order and frame offset are as documented *)
+Theorem code_decision_points_as_documented : params_ok (fixflags code_params).
+Proof. exact code_params_ok. Qed.
+
+(* scope_agrees: for include trees of any depth, whenever the Standards define
+   the outcome, a directive interpreter with the documented decision points
+   computes exactly it: per-fragment encoding, byte order, frame offset,
+   protection, root namespace, prefix, suffix, parent, directory; every
+   definition with its full name, fragment and hidden flag; RAW file bases;
+   input codes and alias targets; the /REFERENCE code or the first RAW field;
+   and it rejects exactly the trees the Standards reject. *)
+Theorem scope_agrees : forall P t, params_ok P -> tree_plain t = true ->
+  match interp_spec_pre t with
+  | Unspec => True
+  | r => interp_impl_pre P t = r
+  end.
+Proof. exact scope_agrees_any. Qed.
+
+(* the full statement about the code as it is in /repo *)
+Definition scope_agrees_statement : Prop := Main.scope_agrees_statement.
+
+(* ... holds as soon as the two flagged decision points are as the Standards
+   require (proposed fixes C09-1, C09-2) *)
+Theorem scope_agrees_when_fixed :
+  prm_prot_inherit code_params = true -> prm_ns_pop code_params = true -> scope_agrees_statement.
+Proof. exact Main.scope_agrees_when_fixed. Qed.
+
+(* ... and is violated by the unchanged code otherwise (/PROTECT not inherited;
+   /NAMESPACE of an included fragment leaking into its parent) *)
+Theorem scope_agrees_refuted :
+  prm_prot_inherit code_params = false \/ prm_ns_pop code_params = false -> ~ scope_agrees_statement.
+Proof. exact Main.scope_agrees_refuted. Qed.
+
+Theorem protect_not_inherited_refutes : forall nspop,
+  tree_plain w_prot = true /\ interp_spec_pre w_prot <> Unspec /\
+  interp_impl_pre (set_flags spec_params false nspop) w_prot <> interp_spec_pre w_prot.
+Proof. exact protect_refuted. Qed.
+
+Theorem namespace_leak_refutes : forall prot,
+  tree_plain w_ns = true /\ interp_spec_pre w_ns <> Unspec /\
+  interp_impl_pre (set_flags spec_params prot false) w_ns <> interp_spec_pre w_ns.
+Proof. exact nsleak_refuted. Qed.
+
+(* exact excluded region: the unchanged code agrees with the Standards on every
+   tree on which the two decision points make no difference *)
+Theorem scope_agrees_partial : forall t, tree_plain t = true ->
+  interp_impl_pre code_params t = interp_impl_pre (fixflags code_params) t ->
+  match interp_spec_pre t with
+  | Unspec => True
+  | r => interp_impl_pre code_params t = r
+  end.
+Proof. exact Main.scope_agrees_partial. Qed.
+
+(* names: _GD_BuildCode computes the Standards' reading of a name or code
+   outside the two recorded corners (one-letter r/i/m/a names qualified by a
+   namespace; namespace-qualified INDEX) *)
+Theorem build_code_agrees : forall is_name fns px sx cur code nons,
+  (nons = true \/ (index_like code = false /\ (is_name = true -> repr_like (undot code) = false))) ->
+  build_code fns px sx cur code nons = spec_code is_name fns px sx cur code nons.
+Proof. exact NamesProofs.build_code_agrees. Qed.
+
+Theorem build_code_repr_refuted :
+  build_code [] [80] [83] [] [120; 46; 114] false <> spec_code true [] [80] [83] [] [120; 46; 114] false.
+Proof. exact Main.build_code_repr_refuted. Qed.
+
+Theorem build_code_index_refuted :
+  build_code [] [] [] [] [120; 46; 73; 78; 68; 69; 88] false <> spec_code true [] [] [] [] [120; 46; 73; 78; 68; 69; 88] false.
+Proof. exact Main.build_code_index_refuted. Qed.
+
+(* affix_nesting: the deepest inclusion is innermost, in the code and in the
+   Standards' inclusion chain; RAW file names carry no affix or namespace *)
+Theorem affix_nesting : forall P p f pxin sxin ns px sx nb,
+  set_affixes P p f pxin sxin = Ok (ns, px, sx, nb) ->
+  (exists px', px = f_px f ++ px') /\ sx = sxin ++ f_sx f.
+Proof. exact affix_nesting_impl. Qed.
+
+Theorem affix_nesting_chain : forall c px sx,
+  chain_px (c ++ [(px, sx)]) = chain_px c ++ px /\ chain_sx (c ++ [(px, sx)]) = sx ++ chain_sx c.
+Proof. exact affix_nesting_spec. Qed.
+
+Theorem raw_file_names_carry_no_affix : forall nf cf std ped me barth ents name lg ents' r,
+  add_field nf cf std ped me barth ents name (KRaw lg) = Ok (ents', r) ->
+  exists field, ents' = ents ++ [{| e_name := field; e_frag := me; e_kind := ERaw name; e_hidden := false |}].
+Proof. exact raw_file_has_no_affix. Qed.
+
+(* reference_rule: the last /REFERENCE anywhere wins, else the first RAW field *)
+Theorem reference_rule : forall P t po, params_ok P -> tree_plain t = true ->
+  interp_spec_pre t = Ok po ->
+  exists st, spec_run t spec_init = Ok st /\
+             interp_impl_pre P t = Ok po /\
+             po_ref po = match s_lastref st with
+                         | Some c => RefCode c
+                         | None => RefFirst (first_raw (s_ent st))
+                         end.
+Proof. exact Main.reference_rule. Qed.
+
+(* version_propagation: upward only for versions 8 and earlier (the test of
+   include.c:355 against the rule of dirfile-format.5) *)
+Theorem version_propagation : forall v v2, (sv_strict v = true -> sv_strict v2 = true) ->
+  (if ((9 <=? sv_std v) && sv_strict v) || (9 <=? sv_std v2) then sv_std v else sv_std v2)
+    = sv_std (spec_leave_ver v v2) /\
+  (if ((9 <=? sv_std v) && sv_strict v) || (9 <=? sv_std v2)
+   then (if sv_strict v then sv_strict v2 else false) else sv_strict v2)
+    = sv_strict (spec_leave_ver v v2).
+Proof. exact leave_ver_eq. Qed.
+
+(* alias_resolution: whatever _GD_ResolveAlias returns, when it returns, is the
+   reflexive-transitive target; a chain that reaches a missing name or loops
+   back is dangling *)
+Theorem alias_resolution_partial : forall ents B t0 fuel r,
+  find_exact (e_name B) ents = Some B -> e_kind B = EAlias t0 ->
+  res_alias false ents fuel 0 (e_name B) t0 = ADone r ->
+  match r with
+  | Some x => resolves_to ents t0 x
+  | None => dangling ents t0
+  end.
+Proof. exact alias_resolution_when_it_returns. Qed.
+
+Definition alias_resolution_statement : Prop :=
+  forall ents base t, exists r, resolve_impl (prm_alias_bounded code_params) ents base t = ADone r.
+
+(* an alias pointing into a loop it is not part of: unbounded recursion *)
+Theorem alias_resolution_refuted : forall fuel, res_alias false ents_loop fuel 0 s_z s_b = ADiverge.
+Proof. exact alias_into_loop_diverges. Qed.
+
+Theorem alias_loop_is_dangling_in_the_standards : dangling ents_loop s_b.
+Proof. exact loop_is_dangling. Qed.
+
+(* with the recursion bound of proposed fix C09-3 the function is total *)
+Theorem alias_resolution_total_when_bounded : forall ents base t,
+  exists r, resolve_impl true ents base t = ADone r.
+Proof. exact resolve_impl_bounded_total. Qed.
+
+Theorem alias_target_unique : forall ents t x x', resolves_to ents t x -> resolves_to ents t x' -> x = x'.
+Proof. exact resolves_to_unique. Qed.
+
+Theorem alias_spec_sound : forall ents k t x, follow ents k t = Some x -> resolves_to ents t x.
+Proof. exact follow_sound. Qed.
+
+(* the hypotheses are satisfiable *)
+Example params_ok_inhabited : params_ok spec_params.
+Proof. unfold params_ok. vm_compute. repeat split. Qed.
+
+Example plain_defined_tree :
+  tree_plain w_ns = true /\ interp_spec_pre w_ns <> Unspec /\ interp_impl_pre spec_params w_ns = interp_spec_pre w_ns.
+Proof. vm_compute. repeat split. discriminate. Qed.
